@@ -13,6 +13,9 @@ hand-written model of `MirModel/Validate.lean`, and re-states the headline C14 t
 accepted; only `ValueError` can come out) on the translated definitions.  A source change that alters a validator's
 behaviour breaks the `_eq_model` theorem of that validator.
 -/
+-- simp sets carry fallbacks for harmless rewrites of the source (swapped operands, other column order)
+set_option linter.unusedSimpArgs false
+
 namespace Mir.C14.GenVal
 open Mir Mir.Validate Mir.PyV
 
@@ -23,7 +26,7 @@ theorem validate_events_eq_model (e : Arr) (m : Rat) : Gen.util.validate_events 
   by_cases h : e.ndim = 1
   · obtain ⟨s, hs⟩ := diff_data_of_ndim_one h
     simp [hs, h]
-  · simp [h]
+  · simp [decide_eq_comm, Bool.or_comm, h]
 
 theorem validate_events_default (e : Arr) : Gen.util.validate_events e = utilEvents e 30000 :=
   validate_events_eq_model e 30000
@@ -32,21 +35,21 @@ theorem validate_intervals_eq_model (iv : Arr) : Gen.util.validate_intervals iv 
   unfold Gen.util.validate_intervals utilIntervals
   rcases iv with ⟨s, d⟩
   match s with
-  | [] => simp [Arr.ndim, notNby2, check]
-  | [_] => simp [Arr.ndim, notNby2, check]
-  | _ :: _ :: _ :: _ => simp [Arr.ndim, notNby2, check]
+  | [] => simp [decide_eq_comm, Bool.or_comm, Arr.ndim, notNby2, check]
+  | [_] => simp [decide_eq_comm, Bool.or_comm, Arr.ndim, notNby2, check]
+  | _ :: _ :: _ :: _ => simp [decide_eq_comm, Bool.or_comm, Arr.ndim, notNby2, check]
   | [n, k] =>
       by_cases hk : k = 2
       · subst hk
         cases hc : check (d.any fun x => decide (x < 0)) <;>
-          simp [Arr.ndim, notNby2, shapeAt, col, zipB, Mask.any, zip_everyNth_two, hc, List.any_map,
+          simp [decide_eq_comm, Bool.or_comm, Arr.ndim, notNby2, shapeAt, col, zipB, Mask.any, zip_everyNth_two, zip_everyNth_two', hc, List.any_map,
             Function.comp_def]
-      · simp [Arr.ndim, notNby2, check, shapeAt, hk]
+      · simp [decide_eq_comm, Bool.or_comm, Arr.ndim, notNby2, check, shapeAt, hk]
 
 theorem validate_frequencies_eq_model (f : Arr) (mx mn : Rat) (neg : Bool) :
     Gen.util.validate_frequencies f mx mn neg = utilFrequencies f mx mn neg := by
   unfold Gen.util.validate_frequencies utilFrequencies
-  cases neg <;> simp [List.any_map, Function.comp_def]
+  cases neg <;> simp [decide_eq_comm, Bool.or_comm, List.any_map, Function.comp_def]
 
 theorem validate_frequencies_default (f : Arr) (mx mn : Rat) :
     Gen.util.validate_frequencies f mx mn = utilFrequencies f mx mn false :=
@@ -58,26 +61,26 @@ theorem beat_max_time : Gen.beat.MAX_TIME = maxTime := rfl
 theorem onset_max_time : Gen.onset.MAX_TIME = maxTime := rfl
 
 theorem beat_validate_eq_model (r e : Arr) : Gen.beat.validate r e = beatValidate r e := by
-  simp [Gen.beat.validate, beatValidate, forEach, validate_events_eq_model, beat_max_time]
+  simp [decide_eq_comm, Bool.or_comm, Gen.beat.validate, beatValidate, forEach, validate_events_eq_model, beat_max_time]
 
 theorem onset_validate_eq_model (r e : Arr) : Gen.onset.validate r e = onsetValidate r e := by
-  simp [Gen.onset.validate, onsetValidate, forEach, validate_events_eq_model, onset_max_time]
+  simp [decide_eq_comm, Bool.or_comm, Gen.onset.validate, onsetValidate, forEach, validate_events_eq_model, onset_max_time]
 
 theorem validate_tempi_eq_model (t : Arr) (ref : Bool) : Gen.tempo.validate_tempi t ref = tempoTempi t ref := by
-  simp [Gen.tempo.validate_tempi, tempoTempi]
+  simp [decide_eq_comm, Bool.or_comm, Gen.tempo.validate_tempi, tempoTempi]
 
 theorem validate_tempi_default (t : Arr) : Gen.tempo.validate_tempi t = tempoTempi t true :=
   validate_tempi_eq_model t true
 
 theorem tempo_validate_eq_model (rt : Arr) (w : Rat) (et : Arr) :
     Gen.tempo.validate rt w et = tempoValidate rt w et := by
-  simp [Gen.tempo.validate, tempoValidate, validate_tempi_eq_model]
+  simp [decide_eq_comm, Bool.or_comm, Gen.tempo.validate, tempoValidate, validate_tempi_eq_model]
 
 /-! ## segment -/
 
 theorem validate_boundary_eq_model (r e : Arr) (trim : Bool) :
     Gen.segment.validate_boundary r e trim = segmentBoundary r e trim := by
-  simp [Gen.segment.validate_boundary, segmentBoundary, forEach, validate_intervals_eq_model]
+  simp [decide_eq_comm, Bool.or_comm, Gen.segment.validate_boundary, segmentBoundary, forEach, validate_intervals_eq_model]
 
 /-- one turn of the loop of `validate_structure` -/
 theorem structure_side (iv : Arr) (n : Nat) :
@@ -91,7 +94,7 @@ theorem structure_side (iv : Arr) (n : Nat) :
       else do
         pure ()) = structureSide iv n := by
   simp only [structureSide, startsAtZero, validate_intervals_eq_model]
-  by_cases h : iv.size > 0 <;> simp [h]
+  by_cases h : iv.size > 0 <;> simp [decide_eq_comm, Bool.or_comm, h]
 
 theorem validate_structure_eq_model (ri : Arr) (nr : Nat) (ei : Arr) (ne : Nat) :
     Gen.segment.validate_structure ri nr ei ne = segmentStructure ri nr ei ne := by
@@ -99,7 +102,7 @@ theorem validate_structure_eq_model (ri : Arr) (nr : Nat) (ei : Arr) (ne : Nat) 
   simp only [forEach]
   rw [← structure_side ri nr, ← structure_side ei ne]
   unfold endTogether
-  by_cases h1 : ri.size > 0 <;> by_cases h2 : ei.size > 0 <;> simp [h1, h2, bind_assoc]
+  by_cases h1 : ri.size > 0 <;> by_cases h2 : ei.size > 0 <;> simp [decide_eq_comm, Bool.or_comm, h1, h2, bind_assoc]
 
 /-! ## alignment -/
 
@@ -109,29 +112,29 @@ theorem alignment_validate_eq_model (r e : Arr) : Gen.alignment.validate r e = a
   · by_cases he : e.ndim = 1
     · obtain ⟨s, h1, h2, h3⟩ := sub_tail_init_of_ndim_one hr
       obtain ⟨s', h1', h2', h3'⟩ := sub_tail_init_of_ndim_one he
-      simp [hr, he, h1, h2, h1', h2']
-    · simp [hr, he]
-  · simp [hr]
+      simp [decide_eq_comm, Bool.or_comm, hr, he, h1, h2, h1', h2']
+    · simp [decide_eq_comm, Bool.or_comm, hr, he]
+  · simp [decide_eq_comm, Bool.or_comm, hr]
 
 /-! ## melody -/
 
 theorem validate_voicing_eq_model (rv ev : Arr) : Gen.melody.validate_voicing rv ev = melodyVoicing rv ev := by
-  simp [Gen.melody.validate_voicing, melodyVoicing, forEach]
+  simp [decide_eq_comm, Bool.or_comm, Gen.melody.validate_voicing, melodyVoicing, forEach]
 
 theorem melody_validate_eq_model (rv rc ev ec : Arr) :
     Gen.melody.validate rv rc ev ec = melodyValidate rv rc ev ec := by
   unfold Gen.melody.validate melodyValidate
-  rcases rv with ⟨_ | ⟨a, _⟩, _⟩ <;> rcases rc with ⟨_ | ⟨b, _⟩, _⟩ <;> simp [Arr.shape0]
+  rcases rv with ⟨_ | ⟨a, _⟩, _⟩ <;> rcases rc with ⟨_ | ⟨b, _⟩, _⟩ <;> simp [decide_eq_comm, Bool.or_comm, Arr.shape0]
   by_cases h1 : a = b
-  · rcases ev with ⟨_ | ⟨c, _⟩, _⟩ <;> rcases ec with ⟨_ | ⟨d, _⟩, _⟩ <;> simp [h1]
-    by_cases h2 : c = d <;> simp [h2]
-  · simp [h1]
+  · rcases ev with ⟨_ | ⟨c, _⟩, _⟩ <;> rcases ec with ⟨_ | ⟨d, _⟩, _⟩ <;> simp [decide_eq_comm, Bool.or_comm, h1]
+    by_cases h2 : c = d <;> simp [decide_eq_comm, Bool.or_comm, h2]
+  · simp [decide_eq_comm, Bool.or_comm, h1]
 
 /-! ## transcription / transcription_velocity -/
 
 theorem transcription_validate_intervals_eq_model (ri ei : Arr) :
     Gen.transcription.validate_intervals ri ei = transcriptionIntervals ri ei := by
-  simp [Gen.transcription.validate_intervals, transcriptionIntervals, validate_intervals_eq_model]
+  simp [decide_eq_comm, Bool.or_comm, Gen.transcription.validate_intervals, transcriptionIntervals, validate_intervals_eq_model]
 
 /-- `if a.size > 0 and np.min(a) <cmp> 0: raise` -/
 theorem size_and_min (a : Arr) (g : Rat → Bool) :
@@ -152,13 +155,13 @@ theorem transcription_validate_eq_model (ri rp ei ep : Arr) :
     Gen.transcription.validate ri rp ei ep = transcriptionValidate ri rp ei ep := by
   unfold Gen.transcription.validate transcriptionValidate minNonPositive
   rw [← size_and_min rp (fun m => decide (m ≤ 0)), ← size_and_min ep (fun m => decide (m ≤ 0))]
-  simp [transcription_validate_intervals_eq_model, bind_assoc]
+  simp [decide_eq_comm, Bool.or_comm, transcription_validate_intervals_eq_model, bind_assoc]
 
 theorem velocity_validate_eq_model (ri rp rv ei ep ev : Arr) :
     Gen.transcription_velocity.validate ri rp rv ei ep ev = velocityValidate ri rp rv ei ep ev := by
   unfold Gen.transcription_velocity.validate velocityValidate minNegative
   rw [← size_and_min rv (fun m => decide (m < 0)), ← size_and_min ev (fun m => decide (m < 0))]
-  simp [transcription_validate_eq_model, bind_assoc]
+  simp [decide_eq_comm, Bool.or_comm, transcription_validate_eq_model, bind_assoc]
 
 /-! ## multipitch -/
 
@@ -167,7 +170,7 @@ theorem multipitch_validate_eq_model (rt : Arr) (rf : List Arr) (et : Arr) (ef :
   have h1 : Gen.multipitch.MAX_TIME = maxTime := rfl
   have h2 : Gen.multipitch.MAX_FREQ = maxFreq := rfl
   have h3 : Gen.multipitch.MIN_FREQ = minFreq := rfl
-  simp [Gen.multipitch.validate, multipitchValidate, validate_events_eq_model, validate_frequencies_eq_model, h1, h2, h3]
+  simp [decide_eq_comm, Bool.or_comm, Gen.multipitch.validate, multipitchValidate, validate_events_eq_model, validate_frequencies_eq_model, h1, h2, h3]
 
 /-! ## hierarchy (mirrors the known defect: a one-level hierarchy is never looked at) -/
 
@@ -176,16 +179,16 @@ theorem validate_hier_intervals_eq_model (levels : List Arr) :
   unfold Gen.hierarchy.validate_hier_intervals hierValidate
   cases levels with
   | nil => simp
-  | cons top rest => simp [validate_structure_eq_model]
+  | cons top rest => simp [decide_eq_comm, Bool.or_comm, validate_structure_eq_model]
 
 /-! ## pattern -/
 
 theorem n_onset_midi_eq (p : Patterns) :
     Gen.pattern._n_onset_midi p = .ok (p.flatMap fun pat => pat.flatMap fun occ => occ).length := by
-  simp [Gen.pattern._n_onset_midi, pure, Except.pure]
+  simp [decide_eq_comm, Bool.or_comm, Gen.pattern._n_onset_midi, pure, Except.pure]
 
 theorem pattern_validate_eq_model (r e : Patterns) : Gen.pattern.validate r e = patternValidate r e := by
-  simp [Gen.pattern.validate, n_onset_midi_eq, patternValidate, patternSide, forEach]
+  simp [decide_eq_comm, Bool.or_comm, Gen.pattern.validate, n_onset_midi_eq, patternValidate, patternSide, forEach]
 
 /-! ## separation -/
 
@@ -198,13 +201,13 @@ theorem separation_validate_eq_model (r e : Src) : Gen.separation.validate r e =
     simp only at hs
     subst hs
     cases rs with
-    | nil => simp [Src.shape0, Src.ndim, Src.size, hm, anySourceSilent, Arr.prodL]
+    | nil => simp [decide_eq_comm, Bool.or_comm, Src.shape0, Src.ndim, Src.size, hm, anySourceSilent, Arr.prodL]
     | cons n t =>
         simp only [Src.shape0, hm, Src.size, Src.ndim, anySourceSilent, List.length_cons]
         by_cases hz : Arr.prodL (n :: t) = 0 <;> by_cases hd : t.length + 1 < 2 <;> by_cases h3 : 3 < t.length + 1 <;>
-          by_cases hn : maxSources < n <;> cases rf.any id <;> cases ef.any id <;> simp [hz, hd, h3, hn]
-  · have hb : (r.shape != e.shape) = true := by simp [bne_iff_ne, hs]
-    simp [hs, hb]
+          by_cases hn : maxSources < n <;> cases rf.any id <;> cases ef.any id <;> simp [decide_eq_comm, Bool.or_comm, hz, hd, h3, hn]
+  · have hb : (r.shape != e.shape) = true := by simp [decide_eq_comm, Bool.or_comm, bne_iff_ne, hs]
+    simp [decide_eq_comm, Bool.or_comm, hs, hb]
 
 /-! ## The headline C14 statements on the TRANSLATED validators
 
